@@ -1133,6 +1133,84 @@ Proof.
 Qed.
 
 (* ================================================================== *)
+(* Model sanity, for arbitrary programs and policies                  *)
+
+(* A thread with a pending request is blocked: its next act is the pending
+   acquire, so the only step it can take is to be granted.  (This is why the
+   Rel / Read / Write rules need no "not waiting" premise.) *)
+Lemma wait_ok_step : forall policy c l c',
+  wait_ok c -> step policy c l c' -> wait_ok c'.
+Proof.
+  intros policy c l c' Hw Hs.
+  destruct Hs as
+    [c i t m rest Hn Hp Hnw
+    |c i t m rest Hn Hp Hq Hc Hpol
+    |c i t m hs rest Hn Hp Hh
+    |c i t rest Hn Hp Hh
+    |c i t f rest Hn Hp Hh]; unfold wait_ok in *; simpl.
+  - intros j m' Hin. apply in_app_or in Hin. destruct Hin as [Hin|[Heq|[]]]; auto.
+    inversion Heq; subst. eauto.
+  - intros j m' Hin. apply In_unwait in Hin. destruct Hin as [Hin Hne].
+    destruct (Hw j m' Hin) as [t0 [rest0 [Hj Hp0]]].
+    exists t0, rest0. rewrite nth_error_upd_other; auto.
+  - eapply wait_ok_upd_nonacq; eauto. intros [] r; rewrite Hp; discriminate.
+  - eapply wait_ok_upd_nonacq; eauto. intros [] r; rewrite Hp; discriminate.
+  - eapply wait_ok_upd_nonacq; eauto. intros [] r; rewrite Hp; discriminate.
+Qed.
+
+Theorem waiting_thread_blocked : forall policy progs s0 cfg i m,
+  reachable policy (init progs s0) cfg ->
+  In (i, m) (waiting cfg) ->
+  exists t rest, nth_error (threads cfg) i = Some t /\ prog t = acq m :: rest.
+Proof.
+  intros policy progs s0 cfg i m Hr.
+  revert i m. change (wait_ok cfg).
+  eapply reachable_invariant with (P := wait_ok); eauto using wait_ok_step.
+  intros j m' [].
+Qed.
+
+(* Admissibility cannot be dropped from Theorem 1: under the policy that
+   never grants, a single thread with a single section gets stuck. *)
+Definition never : policy_t := fun _ _ => false.
+
+Example never_not_admissible : ~ admissible never.
+Proof.
+  intros H.
+  destruct (H (mkConfig [mkThread [AcqR; Rel] [] []] [(0, R)] 0 [0]))
+    as [i [m [_ Hp]]]; simpl.
+  - intros t [<-|[]]; reflexivity.
+  - discriminate.
+  - discriminate.
+Qed.
+
+Definition one_section : list (list act) := [[AcqR; Rel]].
+
+Example never_gets_stuck :
+  Forall well_bracketed one_section /\ Forall depth_le1 one_section /\
+  Forall guarded one_section /\
+  exists cfg, run never (init one_section 0) [LReq 0] cfg /\ stuck never cfg.
+Proof.
+  split; [repeat constructor|].
+  split; [repeat constructor; unfold depth_le1; simpl; lia|].
+  split; [repeat constructor|].
+  eexists. split.
+  - apply exec_all_sound. vm_compute. reflexivity.
+  - split.
+    + intros Hf. specialize (Hf (mkThread [AcqR; Rel] [] []) (or_introl eq_refl)).
+      destruct Hf as [Hp _]. discriminate.
+    + intros [l [c' Hs]].
+      inversion Hs as
+        [c i t m rest Hn Hp Hw
+        |c i t m rest Hn Hp Hin Hc Hpol
+        |c i t m hs rest Hn Hp Hh
+        |c i t rest Hn Hp Hh
+        |c i t f rest Hn Hp Hh]; subst; cbn in *;
+      try discriminate;
+      destruct i as [|i]; cbn in *; try (destruct i; discriminate);
+        try discriminate; inversion Hn; subst t; discriminate.
+Qed.
+
+(* ================================================================== *)
 (* Non-vacuity: a system of the post-repair shape                     *)
 (* two readers with two read sections each, one writer-ish thread with *)
 (* a read section, a write section of two writes, and a read section   *)
@@ -1229,6 +1307,7 @@ Check can_finish.
 Check writer_pref_admissible.
 Check nested_read_deadlocks.
 Check mutual_exclusion.
+Check waiting_thread_blocked.
 Check reads_see_whole_sections.
 
 Print Assumptions non_nested_progress.
